@@ -2,6 +2,7 @@ package main
 
 import (
 	"fmt"
+	"strconv"
 	"go/constant"
 	"go/token"
 	"go/types"
@@ -21,6 +22,10 @@ type wItem struct {
 	val   int64  // const value / validated constant
 	hasV  bool   // local: compared against val after decoding
 	desc  string
+	// local: exact set of values with which the decoder can still succeed
+	accepted finSet
+	hasAcc   bool
+	call     *ssa.Call // tail: the decode call on the rest of the input
 }
 
 func (w wItem) String() string {
@@ -210,6 +215,37 @@ func unpackItems(p *Program, fn *ssa.Function) (items []wItem, ok bool, why stri
 						}
 					})
 				}
+				// the exact set of values of the local with which a successful return is reachable
+				if cell, isCell := stripPtrConv(mi.X).(*ssa.Alloc); isCell {
+					var ld ssa.Value
+					instrsOf(fn, func(x ssa.Instruction) {
+						if u, isU := x.(*ssa.UnOp); isU && u.Op == token.MUL && u.X == ssa.Value(cell) && ld == nil {
+							ld = u
+						}
+					})
+					if ld != nil {
+						acc := finSet{}
+						okAll := true
+						for _, r := range returnsOf(fn) {
+							if len(r.Results) < 2 || !p.returnMayBeNil(r, len(r.Results)-1) {
+								continue
+							}
+							set, okS := finSetAtRoot(ld, r.Block(), ld)
+							if !okS {
+								okAll = false
+								break
+							}
+							for v, in := range set {
+								if in {
+									acc[v] = true
+								}
+							}
+						}
+						if okAll {
+							it.accepted, it.hasAcc = acc, true
+						}
+					}
+				}
 				items = append(items, it)
 				continue
 			}
@@ -311,7 +347,7 @@ func unpackItems(p *Program, fn *ssa.Function) (items []wItem, ok bool, why stri
 				}
 			}
 			if dest != "" {
-				items = append(items, wItem{width: linSym("Size(" + dest + ")"), kind: "nested", path: dest, desc: "tail"})
+				items = append(items, wItem{width: linSym("Size(" + dest + ")"), kind: "nested", path: dest, desc: "tail", call: call})
 			}
 		}
 	})
@@ -326,9 +362,22 @@ func normPath(s string) string {
 	return s
 }
 
+// otherShapeDecoder: decoders that are not "one UnpackSome over the input" and
+// the rule that judges each instead.
+var otherShapeDecoder = map[string]bool{
+	"cemi.Info":                   true, // C11.decode: length-prefixed decoder rule
+	"cemi.LBusmonInd":             true, // byte-copy rule
+	"cemi.LRaw":                   true, // byte-copy rule
+	"cemi.UnsupportedMessage":     true, // byte-copy rule
+	"knxnet.UnknownService":       true, // byte-copy rule
+	"knxnet.RoutingInd":           true, // header constants + cemi.Unpack of the rest (tail rule)
+	"knxnet.DescriptionRes":       true, // DescriptionBlock TLV loop (C02.tlv)
+	"knxnet.SupportedServicesDIB": true, // family loop (C02.tlv)
+}
+
 func checkC02Layout(c *Check, p *Program) {
 	rule := "C02.layout"
-	nCmp, nSkip := 0, 0
+	nCmp, nSkip, nTail := 0, 0, 0
 	var skipped []string
 	for _, pt := range declaredPackTypes(p) {
 		un := methodOf(p, pt.nt, "Unpack")
@@ -340,10 +389,104 @@ func checkC02Layout(c *Check, p *Program) {
 		if !ok {
 			nSkip++
 			skipped = append(skipped, tn+": "+why)
+			// decoders of another shape are decided elsewhere (byte-copy rule below, C11.decode, the dispatcher rules);
+			// the list is fixed: a decoder that loses its UnpackSome call does not silently join it
+			if !otherShapeDecoder[tn] {
+				c.Fail(rule, tn+" decoder has the item-list shape", p.Pos(un.Pos()), "the decoder of this type is no longer one util.UnpackSome over its input ("+why+") and is not one of the decoders judged by another rule: its agreement with the encoder is undecided")
+			}
 			continue
 		}
 		pos := p.Pos(un.Pos())
 		pps := runEncoder(p, pt.pack)
+		// a tail that is decoded under a condition on a one-octet field (ConnRes: the endpoint follows only a zero
+		// status): the decoder decodes it for exactly the field values for which the encoder writes it
+		for _, u := range uitems {
+			if u.desc != "tail" || u.call == nil {
+				continue
+			}
+			var fld *types.Var
+			var ld ssa.Value
+			for _, f := range factsAt(u.call.Block()) {
+				for _, pr := range [][2]ssa.Value{{f.X, f.Y}, {f.Y, f.X}} {
+					if _, isK := constInt(pr[1]); !isK {
+						continue
+					}
+					if lf := loadedField(pr[0]); lf != nil && recvPath(un, unOpAddr(pr[0])) != "" {
+						if w, _, okw := typeWidth(lf.Type(), "amd64"); okw && w == 8 {
+							fld, ld = lf, pr[0]
+						}
+					}
+				}
+			}
+			if fld == nil {
+				continue // unconditional tail: the item comparison below covers it
+			}
+			dec, okD := finSetAtRoot(ld, u.call.Block(), ld)
+			if !okD {
+				c.Fail(rule, tn+" tail decoded under the encoder's condition", p.InstrPos(u.call), "the condition under which the rest of the input is decoded is not a function of "+fld.Name()+" alone")
+				continue
+			}
+			nTail++
+			enc := finSet{}
+			okE := true
+			prefix := "r." + fld.Name() + "["
+			for _, pp := range pps {
+				if len(pp.notes) > 0 {
+					continue
+				}
+				pitems, bad := packItems(pp.env, pp)
+				if bad != "" {
+					continue
+				}
+				writes := false
+				for _, it := range pitems {
+					if (it.kind == "nested" || it.kind == "field" || it.kind == "bytes") && strings.Contains(it.path, u.path) {
+						writes = true
+					}
+				}
+				// the values of the field on this encoder path
+				vals := finSet{}
+				for v := range vals {
+					vals[v] = true
+				}
+				for _, cnd := range pp.conds {
+					body := strings.TrimLeft(cnd, "+-")
+					if !strings.HasPrefix(body, prefix) {
+						continue
+					}
+					parts := strings.Split(body, " == ")
+					if len(parts) != 2 {
+						okE = false
+						continue
+					}
+					k, err := strconv.ParseInt(strings.ReplaceAll(parts[1], " ", ""), 2, 64)
+					if err != nil {
+						okE = false
+						continue
+					}
+					for v := range vals {
+						if (int64(v) == k) != strings.HasPrefix(cnd, "+") {
+							vals[v] = false
+						}
+					}
+				}
+				if writes {
+					for v, in := range vals {
+						if in {
+							enc[v] = true
+						}
+					}
+				}
+			}
+			diff := -1
+			for v := 0; v < 256; v++ {
+				if enc[v] != dec[v] {
+					diff = v
+					break
+				}
+			}
+			c.Decide(okE && diff < 0, rule, tn+" tail decoded under the encoder's condition", p.InstrPos(u.call), "the decoder reads "+u.path+" for exactly the values of "+fld.Name()+" for which the encoder writes it", fmt.Sprintf("for %s = %d the encoder writes %s: %v, the decoder reads it: %v", fld.Name(), diff, u.path, diff >= 0 && enc[diff], diff >= 0 && dec[diff]))
+		}
 		for _, pp := range pps {
 			if len(pp.notes) > 0 {
 				continue
@@ -401,6 +544,9 @@ func checkC02Layout(c *Check, p *Program) {
 					if a.kind == "const" && b.hasV && a.val != b.val {
 						diffs = append(diffs, fmt.Sprintf("item %d: encoder writes constant %#x, decoder demands %#x", i, a.val, b.val))
 					}
+					if a.kind == "const" && b.hasAcc && a.val >= 0 && a.val < 256 && !b.accepted[a.val] {
+						diffs = append(diffs, fmt.Sprintf("item %d: encoder writes constant %#x, with that value the decoder never succeeds", i, a.val))
+					}
 					if a.kind == "field" || a.kind == "nested" || a.kind == "bytes" {
 						diffs = append(diffs, fmt.Sprintf("item %d: encoder writes %s but the decoder discards it", i, a))
 					}
@@ -430,6 +576,77 @@ func checkC02Layout(c *Check, p *Program) {
 		}
 	}
 	c.Floor(rule, "Pack/Unpack pairs compared item by item", nCmp, 12)
+	c.Floor(rule, "conditional tails compared with the encoder's condition", nTail, 1)
+	// the frame header: Pack writes 06 10 service(2) total(2); UnpackHeader reads the same four items in that order
+	// and succeeds for the two constants the encoder writes
+	if uh := p.Func("knx/knxnet", "UnpackHeader"); uh != nil && len(uh.Params) == 3 {
+		var us *ssa.Call
+		instrsOf(uh, func(in ssa.Instruction) {
+			if call, ok := in.(*ssa.Call); ok && callIs(call, modPath+"/knx/util", "", "UnpackSome") && call.Common().Args[0] == ssa.Value(uh.Params[0]) {
+				us = call
+			}
+		})
+		okShape := false
+		why := "no util.UnpackSome over the input"
+		if us != nil {
+			items, opaque := ifaceArgs(us, true)
+			why = "the items are not (octet, octet, *service, *total length)"
+			if !opaque && len(items) == 4 {
+				okShape = true
+				why = ""
+				want := []int64{6, 16}
+				for i := 0; i < 2; i++ {
+					mi, isMI := items[i].(*ssa.MakeInterface)
+					var cell *ssa.Alloc
+					if isMI {
+						cell, _ = stripPtrConv(mi.X).(*ssa.Alloc)
+					}
+					if cell == nil {
+						okShape, why = false, fmt.Sprintf("item %d is not decoded into a local octet", i)
+						break
+					}
+					if w, _, okw := typeWidth(cell.Type().(*types.Pointer).Elem(), "amd64"); !okw || w != 8 {
+						okShape, why = false, fmt.Sprintf("item %d is not one octet wide", i)
+						break
+					}
+					var ld ssa.Value
+					instrsOf(uh, func(x ssa.Instruction) {
+						if u, isU := x.(*ssa.UnOp); isU && u.Op == token.MUL && u.X == ssa.Value(cell) && ld == nil {
+							ld = u
+						}
+					})
+					if ld == nil {
+						continue // not validated: every value accepted
+					}
+					acc := false
+					for _, r := range returnsOf(uh) {
+						if len(r.Results) < 2 || !p.returnMayBeNil(r, 1) {
+							continue
+						}
+						if set, okS := finSetAtRoot(ld, r.Block(), ld); !okS || set[want[i]] {
+							acc = true
+						}
+					}
+					if !acc {
+						okShape, why = false, fmt.Sprintf("item %d: the encoder writes %d there, with that value the header decoder never succeeds", i, want[i])
+					}
+				}
+				for i := 2; i < 4 && okShape; i++ {
+					mi, isMI := items[i].(*ssa.MakeInterface)
+					if !isMI || stripPtrConv(mi.X) != ssa.Value(uh.Params[i-1]) {
+						okShape, why = false, fmt.Sprintf("item %d is not decoded into parameter %d", i, i-1)
+						break
+					}
+					if pt, isP := mi.X.Type().(*types.Pointer); !isP || primWidth(pt.Elem()) != 2 {
+						okShape, why = false, fmt.Sprintf("item %d is not two octets wide", i)
+					}
+				}
+			}
+		}
+		c.Decide(okShape, "C02.layout", "knxnet.UnpackHeader reads 06 10 service total", p.Pos(uh.Pos()), "octet (accepts 6), octet (accepts 16), service identifier (2), total length (2)", why)
+	} else {
+		c.Fail("C02.layout", "knxnet.UnpackHeader", "", "not found")
+	}
 	// byte-copy types: Pack is copy(buffer, X), Unpack copies the whole input into the same X
 	nCopy := 0
 	for _, pt := range declaredPackTypes(p) {
